@@ -224,6 +224,6 @@ func runC09(ctx *h.Ctx) int {
 	rejectGuard(ctx, 0.05)
 	return ctx.Finish(
 		"texts from every origin (inline argument, text statement, poryswitch text case incl. '_' fallback and brace/colon forms, format() of each) x string type (none, ascii, braille, other identifiers incl. multi-byte) x contents: 1..4 literal parts, raw line breaks + indentation inside a part, multi-byte characters, comment markers, back-ticks, braces, backslash codes, contents already ending in '$' or '\\0', terminator only in an earlier part. Oracle: directive = .string or the written type; one directive per literal part in order, each equal to the part (inner line break -> one space); terminator of the type exactly once at the end, not doubled. distinct = (origin, type class, parts, already terminated, format, lines, multi-line)",
-		ctx.N(300, 2000),
+		ctx.N(300, 700),
 		[]string{"empty literal parts and a closing quote directly after a line break are not generated (lexer limitations that reject or alter the literal before this property applies)", "for format() the line structure is taken from the real FormatText (C07)"})
 }
